@@ -1700,6 +1700,10 @@ def r09_6(ctx):
                                 continue
                         good = True
                     ctx.ob(key + ":true-after-read_to_end", good, site(b, line=s["line"]), "EOF recorded after read_to_end returned Ok" + (" with unused limit" if good and any(e[3] for e in ok_edges) else "") if good else why)
+                elif rv["k"] == "binop" and rv["op"] in ("Eq", "Ge") and const_value(rv["a"]) == 0 and not is_place(rv["a"]):
+                    # (the same test with the operands the other way round: `0 == n`, `0 >= n`)
+                    good = _is_source_read_count(lib, b, rv["b"], src_fields)
+                    ctx.ob(key + ":zero-length-read", good, site(b, line=s["line"]), "EOF iff the source's read returned Ok(0)" if good else "EOF derived from something other than the source read's Ok(0)")
                 elif rv["k"] == "binop" and ((rv["op"] in ("Eq", "Le") and const_value(rv["b"]) == 0) or (rv["op"] == "Lt" and const_value(rv["b"]) == 1)):
                     # (`n == 0`, and for an unsigned count the same test spelt `n < 1` or `n <= 0`)
                     good = _is_source_read_count(lib, b, rv["a"], src_fields)
